@@ -9,10 +9,13 @@ import (
 	"net/http"
 	"net/http/httptest"
 	"strings"
+	"sync/atomic"
 	"time"
 	"unicode/utf8"
 
 	"google.golang.org/grpc"
+	"google.golang.org/grpc/codes"
+	"google.golang.org/grpc/status"
 	"google.golang.org/protobuf/encoding/protodelim"
 	"google.golang.org/protobuf/encoding/protojson"
 	"google.golang.org/protobuf/proto"
@@ -24,13 +27,26 @@ func init() {
 	props["C09"] = runC09
 }
 
+// c09MaxMsgs bounds what a body of the sweep can carry (every message costs at least a byte,
+// bodies are far smaller); a handler that receives more is being fed messages out of nothing.
+const c09MaxMsgs = 200000
+
+var c09Runaway atomic.Bool
+
 func c09Specs() []*MethodSpec {
 	unary := func(ctx context.Context, in *dynamicpb.Message) (proto.Message, error) {
-		return dynamicpb.NewMessage(in.Descriptor().ParentFile().Messages().ByName("Reply")), nil
+		r := dynamicpb.NewMessage(in.Descriptor().ParentFile().Messages().ByName("Reply"))
+		// echo: replies of every size (the compressed reply path depends on the size)
+		r.Set(r.Descriptor().Fields().ByName("data"), in.Get(in.Descriptor().Fields().ByName("data")))
+		return r, nil
 	}
 	drain := func(fx *Fixture, ms *MethodSpec, st grpc.ServerStream) error {
 		n := 0
-		for n < 64 {
+		for {
+			if n > c09MaxMsgs { // more messages than the body has bytes: the stream never ends
+				c09Runaway.Store(true)
+				return status.Error(codes.Internal, "runaway stream")
+			}
 			m := fx.NewMsg("Req")
 			if err := st.RecvMsg(m); err != nil {
 				if err == io.EOF {
@@ -201,6 +217,11 @@ func runC09(c *Ctx) {
 		var out []byte
 		for i, n := 0, rnd.Intn(4); i < n; i++ {
 			enc, _ := proto.Marshal(validMsg())
+			if rnd.Intn(3) == 0 { // incompressible data of every size: echoed, so replies of every size
+				d := make([]byte, rnd.Intn(400))
+				rnd.Read(d)
+				enc, _ = proto.Marshal(reqWithData(fx, d))
+			}
 			payload := enc
 			switch rnd.Intn(6) {
 			case 0:
@@ -322,7 +343,10 @@ func runC09(c *Ctx) {
 			if rnd.Intn(3) == 0 {
 				add("Accept", pick([]string{"*/*", "application/json;q=0.5, application/protobuf", ";;;", "a/b;q=x", "application/json;q=1.5", strings.Repeat("a/b,", 200), ""}))
 			}
-			if rnd.Intn(3) == 0 {
+			if o.stream && rnd.Intn(3) == 0 { // a well-formed gzip body on a streaming method
+				add("Content-Encoding", "gzip")
+				q.body = gzipBytes(q.body)
+			} else if rnd.Intn(3) == 0 {
 				ce := pick([]string{"gzip", "identity", "br", "gzip, gzip", ""})
 				add("Content-Encoding", ce)
 				if ce == "gzip" && rnd.Intn(2) == 0 {
@@ -388,6 +412,31 @@ func runC09(c *Ctx) {
 		q.eofd = rnd.Intn(2) == 0
 		return q
 	}
+	// every reply size through the compressed reply path (gRPC and gRPC-web, gzip negotiated)
+	for size := 0; size <= c.N(260, 1600); size++ {
+		d := make([]byte, size)
+		rnd.Read(d)
+		enc, _ := proto.Marshal(reqWithData(fx, d))
+		for _, web := range []bool{false, true} {
+			r := httptest.NewRequest("POST", "/"+fxPkg+".Svc/Post", bytes.NewReader(grpcFrame(1, gzipBytes(enc))))
+			r.Header.Set("Content-Type", "application/grpc+proto")
+			if web {
+				r.Header.Set("Content-Type", "application/grpc-web+proto")
+			} else {
+				r.ProtoMajor, r.ProtoMinor = 2, 0
+			}
+			r.Header.Set("Grpc-Encoding", "gzip")
+			rec, pn := serveOn(fxA.Mux, r)
+			in := fmt.Sprintf("[sizes] gzip gRPC%s echo of %d random bytes", map[bool]string{true: "-web", false: ""}[web], size)
+			c.Eval("request", in, true)
+			c.Class("sizes")
+			if pn != nil {
+				c.SpecFail("request", in, fmt.Sprint("panic: ", pn), "a response", "C09/panic/grpc-compressed-reply/"+c09PanicKey(pn), "a request panics the mux")
+			} else if st := strings.Trim(rec.Header().Get("Grpc-Status")+rec.Result().Trailer.Get("Grpc-Status"), "0"); rec.Code != 200 || st != "" {
+				c.SpecFail("request", in, fmt.Sprintf("%d grpc-status %q", rec.Code, st), "OK", "C09/valid-refused/grpc-compressed-reply", "a valid compressed call fails")
+			}
+		}
+	}
 	n := c.N(6000, 150000)
 	hung := false
 	for i := 0; i < n && !hung; i++ {
@@ -433,9 +482,13 @@ func runC09(c *Ctx) {
 		}()
 		in := q.String()
 		c.Eval("request", in, true)
+		c09Runaway.Store(false)
 		select {
 		case res := <-done:
 			switch {
+			case c09Runaway.Load():
+				c.Class(q.entry + ":runaway")
+				c.SpecFail("request", in, fmt.Sprintf("the handler received more than %d messages from a %d byte body", c09MaxMsgs, len(q.body)), "the stream ends", "C09/hang/"+q.entry+"/endless-stream", "receiving never reports the end of the body: a handler that drains its stream never returns")
 			case res.pn != nil:
 				c.Class(q.entry + ":panic")
 				c.SpecFail("request", in, fmt.Sprint("panic: ", res.pn), "a response", "C09/panic/"+q.entry+"/"+c09PanicKey(res.pn), "a request panics the mux")
